@@ -22,6 +22,14 @@ Definition out_match (e o : out) : bool :=
   | _, _ => false
   end.
 
+Definition acc_eqb (a b : acc) : bool :=
+  match a, b with ARd, ARd | AWr, AWr | ARdWr, ARdWr => true | _, _ => false end.
+Definition handle_eqb (a b : handle) : bool :=
+  Nat.eqb (h_ino a) (h_ino b) && Z.eqb (h_off a) (h_off b) && Bool.eqb (h_open a) (h_open b) &&
+  acc_eqb (f_acc (h_fl a)) (f_acc (h_fl b)) && Bool.eqb (f_app (h_fl a)) (f_app (h_fl b)).
+Definition st_eqb (a b : st) : bool :=
+  heap_eqb (heap a) (heap b) && list_eqb handle_eqb (handles a) (handles b).
+
 Definition op_name (o : op) : string :=
   match o with
   | Mkdir _ _ => "Mkdir" | MkdirAll _ _ => "MkdirAll" | OpenFile _ _ _ => "OpenFile" | Create _ => "Create"
@@ -44,8 +52,10 @@ Fixpoint check_steps (b : backend) (s : st) (ops : list op) (obs : list out) : l
   | [], [] => []
   | o :: ops', r :: obs' =>
       let '(s1, mr) := model_step b s o in
-      let '(_, sr) := spec_step s o in
-      let vt := if out_match sr r then [] else [String.append "viol:" (corner_tag b s o)] in
+      let '(s1', sr) := spec_step s o in
+      (* the observed result must be the reference's, and (the model standing
+         for the implementation's state) so must the state it leaves *)
+      let vt := if out_match sr r && st_eqb s1 s1' then [] else [String.append "viol:" (corner_tag b s o)] in
       if out_match mr r then vt ++ check_steps b s1 ops' obs'
       else vt ++ [String.append "mismatch:" (op_name o)]
   | _, _ => ["mismatch:observation-count"]
@@ -53,13 +63,26 @@ Fixpoint check_steps (b : backend) (s : st) (ops : list op) (obs : list out) : l
 
 (* directory-backed filesystem: no model of the host kernel; the observations
    are validated against the reference for as long as they agree with it *)
+(* dirFS.Lstat answers from the overlay, which holds no file contents: the
+   size of a non-empty regular file is reported as 0 (nothing else differs) *)
+Definition dir_lstat_size0 (o : op) (sr r : out) : bool :=
+  match o, sr, r with
+  | Lstat _, OInfo KReg p sz u g t, OInfo KReg p' 0%N u' g' t' =>
+      negb (N.eqb sz 0) && out_match (OInfo KReg p 0%N u g t) r
+  | _, _, _ => false
+  end.
+
 Fixpoint check_dir_steps (s : st) (ops : list op) (obs : list out) : list string :=
   match ops, obs with
   | [], [] => []
   | o :: ops', r :: obs' =>
       let '(s1, sr) := spec_step s o in
       if out_match sr r then check_dir_steps s1 ops' obs'
-      else [String.append "viol:dirfs/" (corner_tag MemFS s o)]
+      else if dir_lstat_size0 o sr r then "viol:dirfs-lstat-size-from-overlay" :: check_dir_steps s1 ops' obs'
+      else [match corner MemFS s o with
+            | Some t => String.append "viol:" t              (* inherited from the in-memory overlay *)
+            | None => "viol:dirfs-diverges-inside-envelope"
+            end]
   | _, _ => ["mismatch:observation-count"]
   end.
 
@@ -84,4 +107,21 @@ Fixpoint in_envelope_steps (b : backend) (s : st) (ops : list op) : nat :=
   match ops with
   | [] => 0
   | o :: ops' => (if E b s o then 1 else 0) + in_envelope_steps b (fst (model_step b s o)) ops'
+  end.
+
+(* debugging aid: the first step at which a case leaves the reference / the
+   model, with what they answered *)
+Fixpoint first_div_dir (s : st) (ops : list op) (obs : list out) (i : nat) : option (nat * out) :=
+  match ops, obs with
+  | o :: ops', r :: obs' =>
+      let '(s1, sr) := spec_step s o in
+      if out_match sr r then first_div_dir s1 ops' obs' (S i) else Some (i, sr)
+  | _, _ => None
+  end.
+Fixpoint first_div_model (b : backend) (s : st) (ops : list op) (obs : list out) (i : nat) : option (nat * out) :=
+  match ops, obs with
+  | o :: ops', r :: obs' =>
+      let '(s1, mr) := model_step b s o in
+      if out_match mr r then first_div_model b s1 ops' obs' (S i) else Some (i, mr)
+  | _, _ => None
   end.
